@@ -47,6 +47,10 @@ func checkC09(c *Ctx) {
 		return strings.HasSuffix(p, "registeredDecoys.m") || strings.HasSuffix(p, "r.m") || p == "@lib.RegisteredDecoys.m" || strings.HasSuffix(p, ".m")
 	})
 
+	// ---- C09.8 every acquisition is released on all paths
+	r.Rule("C09.8", "every Lock/RLock in the station library is released on all paths", 15)
+	checkLockLeaks(r, "C09.8", c.funcsOfPkgs("pkg/station/lib"))
+
 	// ---- C09.7 guarded containers do not leave the lock: no function returns a guarded map (or an inner map of it)
 	r.Rule("C09.7", "no function hands out a guarded tracking map itself (only copies built under the lock)", 1)
 	nRet := 0
